@@ -646,18 +646,26 @@ def term_str(t):
 
 def contains(t, pred):
     """does any subterm satisfy pred?"""
-    if pred(t):
-        return True
-    if isinstance(t, tuple):
-        for x in t[1:]:
-            if isinstance(x, tuple) and contains(x, pred):
-                return True
+    for s in subterms(t):
+        if pred(s):
+            return True
     return False
 
 
 def subterms(t):
-    yield t
-    if isinstance(t, tuple):
-        for x in t[1:]:
-            if isinstance(x, tuple):
-                yield from subterms(x)
+    """all term nodes of t (a node is a tuple whose first element is a str tag;
+    argument lists and (field, term) pairs are containers)."""
+    if not isinstance(t, tuple) or not t:
+        return
+    if isinstance(t[0], str) and not (len(t) == 2 and isinstance(t[1], tuple) and t[0] not in TAGS):
+        yield t
+        rest = t[1:]
+    else:
+        rest = t
+    for x in rest:
+        if isinstance(x, tuple):
+            yield from subterms(x)
+
+
+TAGS = {"param", "field", "const", "lit", "litrepr", "fn", "call", "bin", "un", "len", "await", "ok", "err", "some", "poll", "disc",
+        "branch", "cast", "variant", "index", "subslice", "join", "agg", "closure", "repeat", "undef", "cycle", "deep", "unknown", "resume"}
